@@ -65,6 +65,11 @@ func (c *Ctx) toTerm(st *State, v Value) Term {
 // doCallCommon dispatches a call (also used for deferred calls).
 func (c *Ctx) doCallCommon(st *State, fr *Frame, ins ssa.Instruction, call *ssa.CallCommon, res ssa.Value, fnVal Value, args []Value, isDefer bool) []cont {
 	c.curState = st
+	if fr.depth == 0 && ins != nil {
+		if si, ok := c.sitesOf(ins.Parent())[ins]; ok && strings.HasPrefix(si.class, "call ") {
+			st.callArgs[fmt.Sprintf("%s#%d", strings.TrimPrefix(si.class, "call "), si.ord)] = args
+		}
+	}
 	sig := call.Signature()
 	if b, ok := call.Value.(*ssa.Builtin); ok && !call.IsInvoke() {
 		return c.doBuiltin(st, fr, ins, b, call, res, args)
@@ -111,6 +116,20 @@ func (c *Ctx) doCallCommon(st *State, fr *Frame, ins ssa.Instruction, call *ssa.
 	// call through an unknown function value
 	if ok {
 		c.Oblige(st, fr, ins, "nopanic", "nil-func", Not(Eq(ft, IntLit(0))), "call of nil function value")
+	}
+	if ok {
+		// a function value loaded from a struct field that has a declared contract
+		o, known := st.owners[ft.S]
+		if !known {
+			if a, ok2 := st.aliases[ft.S]; ok2 {
+				o, known = st.owners[a]
+			}
+		}
+		if known {
+			if ct := c.Contracts["field:"+c.Reg.TypeKey(o.Struct)+"|"+o.Field]; ct != nil {
+				return c.callByContract(st, fr, ins, ct, nil, nil, sig, res, args, "field:"+typeName(o.Struct)+"."+o.Field)
+			}
+		}
 	}
 	if ok && c.shortType(call.Value.Type()) == "context.CancelFunc" {
 		// cancelling marks the associated context done and has no other modelled effect
@@ -504,6 +523,11 @@ func (c *Ctx) havocForContract(st *State, fr *Frame, env *specEnv, ct *Contract,
 			ws := c.funcSummary(f, 0)
 			cp := &writeSummary{top: ws.top, allocs: ws.allocs, fams: map[string]*famWrite{}}
 			for k, fw := range ws.fams {
+				if k == famHeld && ct.Opts["acquires"] == "" && ct.Opts["releases"] == "" {
+					// a function under contract returns with the locks it was called with
+					// (its own `lock balanced` obligation)
+					continue
+				}
 				if fw.freshOnly && !fw.all && len(fw.bases) == 0 {
 					cp.get(k).freshOnly = true
 				} else {
@@ -893,9 +917,42 @@ func (c *Ctx) lockHeldAny(st *State) Term {
 	return False
 }
 
+// chanInvFor finds the declared message invariant of the channel held in term ch (when the
+// channel was loaded from an annotated struct field).
+func (c *Ctx) chanInvFor(st *State, ch Term) (*ChanInv, ownerInfo, bool) {
+	o, ok := st.owners[ch.S]
+	if !ok {
+		if a, ok2 := st.aliases[ch.S]; ok2 {
+			o, ok = st.owners[a]
+		}
+	}
+	if !ok {
+		return nil, o, false
+	}
+	ci := c.ChanInvs[c.Reg.TypeKey(o.Struct)+"|"+o.Field]
+	return ci, o, ci != nil
+}
+
+func (c *Ctx) chanInvTerm(st *State, ci *ChanInv, o ownerInfo, msg Term, elem types.Type, goal bool) (Term, error) {
+	env := &specEnv{c: c, st: st, vars: map[string]specVal{}, pkg: ci.Pkg}
+	env.vars["msg"] = specVal{msg, elem}
+	env.vars["self"] = specVal{o.Obj, types.NewPointer(o.Struct)}
+	if goal {
+		return c.evalGoal(env, ci.Clause.Expr)
+	}
+	return c.evalBool(env, ci.Clause.Expr)
+}
+
 func (c *Ctx) doSend(st *State, fr *Frame, x *ssa.Send) []cont {
 	ch := c.term(fr, x.Chan, st)
 	st.lastSent[ch.S] = c.term(fr, x.X, st)
+	if ci, o, ok := c.chanInvFor(st, ch); ok {
+		if t, err := c.chanInvTerm(st, ci, o, st.lastSent[ch.S], x.X.Type(), true); err == nil {
+			c.Oblige(st, fr, x, "chaninv", o.Field, t, "message sent on "+o.Field+" satisfies the channel's message invariant: "+ci.Clause.Text)
+		} else {
+			c.Errorf("CONTRACT-ERROR %s: %v", ci.Clause.Line, err)
+		}
+	}
 	c.sendEffects(st, fr, x, ch, true)
 	return one(st, fr)
 }
@@ -922,6 +979,7 @@ func (c *Ctx) doRecv(st *State, fr *Frame, x *ssa.UnOp) []cont {
 	ch := c.term(fr, x.X, st)
 	el := x.X.Type().Underlying().(*types.Chan).Elem()
 	v, ok := c.recvEffects(st, ch, el)
+	c.assumeChanInv(st, ch, v, ok, el)
 	if x.CommaOk {
 		fr.regs[x] = Tuple{v, ok}
 	} else {
@@ -989,11 +1047,17 @@ func (c *Ctx) doSelect(st *State, fr *Frame, x *ssa.Select) []cont {
 		ch := c.term(f, ss.Chan, s)
 		if ss.Dir == types.SendOnly {
 			s.lastSent[ch.S] = c.term(f, ss.Send, s)
+			if ci, o, ok := c.chanInvFor(s, ch); ok {
+				if t, err := c.chanInvTerm(s, ci, o, s.lastSent[ch.S], ss.Send.Type(), true); err == nil {
+					c.Oblige(s, f, x, "chaninv", o.Field, t, "message sent on "+o.Field+" satisfies the channel's message invariant: "+ci.Clause.Text)
+				}
+			}
 			c.sendEffects(s, f, x, ch, false)
 			mk(s, f, i, False, nil)
 		} else {
 			el := ss.Chan.Type().Underlying().(*types.Chan).Elem()
 			v, ok := c.recvEffects(s, ch, el)
+			c.assumeChanInv(s, ch, v, ok, el)
 			if ci, isCtx := s.ctxDoneChans[ch.S]; isCtx {
 				// receiving from ctx.Done() means the context is done
 				cd := c.Arr(s, famCtxDone, ArraySort(SInt, SBool))
@@ -1201,4 +1265,13 @@ func (c *Ctx) sameRecGroup(cur, callee *Contract, f *ssa.Function) bool {
 	}
 	g1, g2 := cur.Opts["recgroup"], callee.Opts["recgroup"]
 	return g1 != "" && g1 == g2
+}
+
+// assumeChanInv: a value really received (ok) from an annotated channel satisfies its message invariant.
+func (c *Ctx) assumeChanInv(st *State, ch Term, v Term, ok Term, el types.Type) {
+	if ci, o, found := c.chanInvFor(st, ch); found {
+		if t, err := c.chanInvTerm(st, ci, o, v, el, false); err == nil {
+			st.Assume(Implies(ok, t))
+		}
+	}
 }
